@@ -619,6 +619,11 @@ package task
 // .MATCH holds exactly the matched substrings: they are marked as final values (data, never a template), so a
 // requested name that contains template syntax is not expanded when the variables of the task are resolved
 //@   site (*Vars).Set#0 requires arg1 == "MATCH" && arg2.Value == box(type([]string), matchingTasks[0].Wildcards) && arg2.Live == arg2.Value   [C15]
+// ... and MATCH is ALL it adds to the variables of the call: what a call passes (task: vars, dep vars, loop variables) is
+// what the callee sees; nothing else - not the command-line variables, not a default - is written over it on the way
+//@   site (*Vars).Set#0 requires arg1 == "MATCH"                                                                       [C02,C10]
+//@   nosite (*Vars).All                                                                                                [C02,C10,C15]
+//@   nosite (*Vars).Merge                                                                                              [C02,C10,C15]
 //@   init consulted := false
 //@   init matchedAny := false
 //@   init firstMatch := nil
@@ -686,6 +691,13 @@ package task
 // executions, the watcher's directory set, the defaulted sorter; the cache of dynamic variables, which is keyed
 // by command and directory). A memo added anywhere else - another field, a package-level variable - makes what a
 // task sees depend on which tasks were compiled before it, and fails here without any annotation of the new code.
+// Set-up resolves the root node and takes its directory over; what the USER stated - the entrypoint, the options -
+// stays as stated: a second Setup of the same Executor (watch mode, the library API) resolves the same statement again
+// and must find the same Taskfile
+//@ func (*Executor).getRootNode
+//@   nosite store:Executor.Entrypoint                                                                     [C09,C08]
+//@   nosite store:Executor.Insecure                                                                       [C09,C20]
+//@   nosite store:Executor.Timeout                                                                        [C09,C20]
 //@ state_fields Executor: executionHashes executionWaits watchedDirs TaskSorter except NewExecutor *.ApplyToExecutor (*Executor).setup* (*Executor).getRootNode (*Executor).readTaskfile   [C11,C18,C07]
 //@ state_fields Compiler: dynamicCache except (*Executor).setupCompiler                                           [C11,C18]
 // watch mode: the cache of dynamic variables is dropped by the event loop itself (watchTasks$2), for every event it
@@ -892,3 +904,155 @@ package task
 //@   pure allocates
 //@ func (*Compiler).getVariables$1
 //@   pure allocates
+
+// ---- settings travel unchanged from the option to the Executor -------------------------------------------------
+// Every With...() option carries the value it was given, and applying it stores exactly that value in the one field of
+// the Executor it is named after (generated from the option types of executor.go; the flags side is in
+// internal/flags: each option is built from the flag of the same name). A setting that is dropped, inverted, defaulted
+// or stored in a neighbouring field on the way breaks the property that the setting controls.
+//@ func (*entrypointOption).ApplyToExecutor
+//@   modifies e.Entrypoint
+//@   ensures e.Entrypoint == o.entrypoint                                                  [C08,C09]
+//@ func WithEntrypoint
+//@   pure allocates
+//@   ensures as(result, type(*entrypointOption)).entrypoint == entrypoint                        [C08,C09]
+//@ func (*forceOption).ApplyToExecutor
+//@   modifies e.Force
+//@   ensures e.Force == o.force                                                            [C04,C05]
+//@ func WithForce
+//@   pure allocates
+//@   ensures as(result, type(*forceOption)).force == force                                  [C04,C05]
+//@ func (*forceAllOption).ApplyToExecutor
+//@   modifies e.ForceAll
+//@   ensures e.ForceAll == o.forceAll                                                      [C04,C05]
+//@ func WithForceAll
+//@   pure allocates
+//@   ensures as(result, type(*forceAllOption)).forceAll == forceAll                            [C04,C05]
+//@ func (*insecureOption).ApplyToExecutor
+//@   modifies e.Insecure
+//@   ensures e.Insecure == o.insecure                                                      [C20]
+//@ func WithInsecure
+//@   pure allocates
+//@   ensures as(result, type(*insecureOption)).insecure == insecure                            [C20]
+//@ func (*downloadOption).ApplyToExecutor
+//@   modifies e.Download
+//@   ensures e.Download == o.download                                                      [C20]
+//@ func WithDownload
+//@   pure allocates
+//@   ensures as(result, type(*downloadOption)).download == download                            [C20]
+//@ func (*offlineOption).ApplyToExecutor
+//@   modifies e.Offline
+//@   ensures e.Offline == o.offline                                                        [C20]
+//@ func WithOffline
+//@   pure allocates
+//@   ensures as(result, type(*offlineOption)).offline == offline                              [C20]
+//@ func (*timeoutOption).ApplyToExecutor
+//@   modifies e.Timeout
+//@   ensures e.Timeout == o.timeout                                                        [C20]
+//@ func WithTimeout
+//@   pure allocates
+//@   ensures as(result, type(*timeoutOption)).timeout == timeout                              [C20]
+//@ func (*watchOption).ApplyToExecutor
+//@   modifies e.Watch
+//@   ensures e.Watch == o.watch                                                            [C12,C15]
+//@ func WithWatch
+//@   pure allocates
+//@   ensures as(result, type(*watchOption)).watch == watch                                  [C12,C15]
+//@ func (*verboseOption).ApplyToExecutor
+//@   modifies e.Verbose
+//@   ensures e.Verbose == o.verbose                                                        [C17]
+//@ func WithVerbose
+//@   pure allocates
+//@   ensures as(result, type(*verboseOption)).verbose == verbose                              [C17]
+//@ func (*silentOption).ApplyToExecutor
+//@   modifies e.Silent
+//@   ensures e.Silent == o.silent                                                          [C02,C17]
+//@ func WithSilent
+//@   pure allocates
+//@   ensures as(result, type(*silentOption)).silent == silent                                [C02,C17]
+//@ func (*assumeYesOption).ApplyToExecutor
+//@   modifies e.AssumeYes
+//@   ensures e.AssumeYes == o.assumeYes                                                    [C13,C20]
+//@ func WithAssumeYes
+//@   pure allocates
+//@   ensures as(result, type(*assumeYesOption)).assumeYes == assumeYes                          [C13,C20]
+//@ func (*assumeTermOption).ApplyToExecutor
+//@   modifies e.AssumeTerm
+//@   ensures e.AssumeTerm == o.assumeTerm                                                  [C13]
+//@ func WithAssumeTerm
+//@   pure allocates
+//@   ensures as(result, type(*assumeTermOption)).assumeTerm == assumeTerm                        [C13]
+//@ func (*dryOption).ApplyToExecutor
+//@   modifies e.Dry
+//@   ensures e.Dry == o.dry                                                                [C12]
+//@ func WithDry
+//@   pure allocates
+//@   ensures as(result, type(*dryOption)).dry == dry                                      [C12]
+//@ func (*summaryOption).ApplyToExecutor
+//@   modifies e.Summary
+//@   ensures e.Summary == o.summary                                                        [C12]
+//@ func WithSummary
+//@   pure allocates
+//@   ensures as(result, type(*summaryOption)).summary == summary                              [C12]
+//@ func (*parallelOption).ApplyToExecutor
+//@   modifies e.Parallel
+//@   ensures e.Parallel == o.parallel                                                      [C01,C02]
+//@ func WithParallel
+//@   pure allocates
+//@   ensures as(result, type(*parallelOption)).parallel == parallel                            [C01,C02]
+//@ func (*colorOption).ApplyToExecutor
+//@   modifies e.Color
+//@   ensures e.Color == o.color                                                            [C17]
+//@ func WithColor
+//@   pure allocates
+//@   ensures as(result, type(*colorOption)).color == color                                  [C17]
+//@ func (*concurrencyOption).ApplyToExecutor
+//@   modifies e.Concurrency
+//@   ensures e.Concurrency == o.concurrency                                                [C07]
+//@ func WithConcurrency
+//@   pure allocates
+//@   ensures as(result, type(*concurrencyOption)).concurrency == concurrency                      [C07]
+//@ func (*intervalOption).ApplyToExecutor
+//@   modifies e.Interval
+//@   ensures e.Interval == o.interval                                                      [C05]
+//@ func WithInterval
+//@   pure allocates
+//@   ensures as(result, type(*intervalOption)).interval == interval                            [C05]
+//@ func (*taskSorterOption).ApplyToExecutor
+//@   modifies e.TaskSorter
+//@   ensures e.TaskSorter == o.sorter                                                      [C09]
+//@ func WithTaskSorter
+//@   pure allocates
+//@   ensures as(result, type(*taskSorterOption)).sorter == sorter                            [C09]
+//@ func (*stdinOption).ApplyToExecutor
+//@   modifies e.Stdin
+//@   ensures e.Stdin == o.stdin                                                            [C13,C17]
+//@ func WithStdin
+//@   pure allocates
+//@   ensures as(result, type(*stdinOption)).stdin == stdin                                  [C13,C17]
+//@ func (*stdoutOption).ApplyToExecutor
+//@   modifies e.Stdout
+//@   ensures e.Stdout == o.stdout                                                          [C17]
+//@ func WithStdout
+//@   pure allocates
+//@   ensures as(result, type(*stdoutOption)).stdout == stdout                                [C17]
+//@ func (*stderrOption).ApplyToExecutor
+//@   modifies e.Stderr
+//@   ensures e.Stderr == o.stderr                                                          [C17]
+//@ func WithStderr
+//@   pure allocates
+//@   ensures as(result, type(*stderrOption)).stderr == stderr                                [C17]
+//@ func (*ioOption).ApplyToExecutor
+//@   modifies e.Stdin, e.Stdout, e.Stderr
+//@   ensures e.Stdin == o.rw                                                               [C13,C17]
+//@   ensures e.Stdout == o.rw                                                              [C13,C17]
+//@   ensures e.Stderr == o.rw                                                              [C13,C17]
+//@ func WithIO
+//@   pure allocates
+//@   ensures as(result, type(*ioOption)).rw == rw                                        [C13,C17]
+//@ func (*versionCheckOption).ApplyToExecutor
+//@   modifies e.EnableVersionCheck
+//@   ensures e.EnableVersionCheck == o.enableVersionCheck                                  [C08]
+//@ func WithVersionCheck
+//@   pure allocates
+//@   ensures as(result, type(*versionCheckOption)).enableVersionCheck == enableVersionCheck              [C08]
